@@ -80,6 +80,11 @@ class C10Dst(DstWorld, LeakMixin):
             A = [("tick",), ("get",), ("expire",), ("advance",), ("cancel", "right"), ("ackfin",), ("md",),
                  ("fd", 0, 2, 0), ("fd", 2, 2, 0), ("fd", size + 1, 1, 3), ("eof", size, "NO_ERROR", 1), ("eof", 2, "CANCEL_REQUEST_RECEIVED", 1),
                  ("prompt",), ("pdu", "ACKF", None, T(mode=other_mode)), ("pdu", "EOF", None, T(seq=(5, 2)))]
+        if cfg.get("variant") == "names":
+            # Metadata PDUs whose destination file name is unusual but well-formed (any octet string is a valid LV value)
+            names = ("out/a\x00b", "out", "out/", "nodir/x", ".", "..", "out/../out/dst.bin", "/", " ")
+            A = [("pdu", "MD", None, T(dname=n, size=size)) for n in names] + \
+                [("tick",), ("get",), ("fd", 0, 2, 0), ("eof", size, "NO_ERROR", 1), ("cancel", "right"), ("expire",)]
         if cfg.get("variant") == "fd":
             # File Data at every offset / small length (retransmissions, overlaps, straddles), Metadata, EOF
             A = [("md",), ("tick",), ("get",), ("expire",), ("eof", size, "NO_ERROR", 1), ("eof", size - 1, "NO_ERROR", 1)]
@@ -217,6 +222,8 @@ def run(tier: str) -> int:
         worlds.append(C10Dst(mode=mode, nak=nak, closure=True, size=4, seg=2, ack_limit=2, nak_limit=2, check_limit=2))
     for nak in ("imm", "def"):
         worlds.append(C10Dst(mode="ack", nak=nak, closure=False, size=5, seg=2, ack_limit=2, nak_limit=2, variant="fd"))
+    for mode in ("ack", "unack"):
+        worlds.append(C10Dst(mode=mode, nak="imm", closure=True, size=2, seg=2, ack_limit=2, nak_limit=2, check_limit=2, variant="names"))
     # late states: receiver awaiting the ACK of its Finished PDU / awaiting missing data; sender awaiting the EOF ACK / the Finished PDU
     fin_wait = [("md",), ("fd", 0, 2, 0), ("fd", 2, 2, 0), ("eof", 4, "NO_ERROR", 1), ("tick",), ("tick",)]
     miss_wait = [("md",), ("fd", 2, 2, 0), ("eof", 4, "NO_ERROR", 1), ("tick",)]
